@@ -42,6 +42,9 @@ use crate::rnd::StrandRng;
 use crate::serialization::{StrandDeserialize, StrandSerialize};
 use crate::util::StrandError;
 
+#[cfg(strand_verif)]
+pub mod verif;
+
 #[derive(PartialEq, Eq, Debug, Clone)]
 pub struct NaturalE<P: MalachiteCtxParams>(
     pub(crate) Natural,
@@ -185,6 +188,12 @@ impl<P: MalachiteCtxParams> Ctx for MalachiteCtx<P> {
 
     #[inline(always)]
     fn rnd(&self) -> Self::E {
+        #[cfg(strand_verif)]
+        {
+            if let Some(b) = crate::verif_hooks::take_exp_bytes() {
+                return NaturalE::new(verif::natural_from_be(&b));
+            }
+        }
         let seed = Self::get_seed();
 
         let one: Natural = Natural::from(1u8);
@@ -203,6 +212,12 @@ impl<P: MalachiteCtxParams> Ctx for MalachiteCtx<P> {
     }
     #[inline(always)]
     fn rnd_exp(&self) -> Self::X {
+        #[cfg(strand_verif)]
+        {
+            if let Some(b) = crate::verif_hooks::take_exp_bytes() {
+                return NaturalX::new(verif::natural_from_be(&b));
+            }
+        }
         let seed = Self::get_seed();
 
         let num = uniform_random_natural_inclusive_range(
